@@ -193,7 +193,7 @@ prop(
 prop(
     "C08",
     lean_modules=["BloomVerif.Lemmas.Pipeline", "BloomVerif.Props.C08", "BloomVerif.Props.C08Gen"],
-    technique="Lean 4 proof (stopped is permanent and disables accept; Stop nil ⇒ drained; Stop error ⇒ flush context cancelled ⇒ flushBegin never enabled again) + trace validation incl. a context with late AfterFunc + timing monitors with slack",
+    technique="Lean 4 proof (stopped is permanent and disables accept; Stop nil ⇒ drained; Stop error ⇒ flush context cancelled ⇒ flushBegin never enabled again), with the acceptance paths of IngestRows / Flush regenerated from ingest.go (refusal once stopped, flag and send under the state lock: Props/C08Gen) + trace validation incl. a context with late AfterFunc + timing monitors with slack",
     design_ref="DESIGN.md section 4 C08",
     text="Machine-checked on the LTS: after Stop has set stopped no request is accepted, ever; Stop returns nil only when nothing accepted is unanswered; in every state where Stop has returned the deadline error the flush context is cancelled and in every continuation no flush begins store work. "
          "Partial: 'returns by roughly the deadline' is wall-clock behaviour, monitored (4x deadline + 200 ms). Scripted schedules wedge the store, abandon unbuffered channels and use a Context whose AfterFunc callbacks run late.",
@@ -203,7 +203,7 @@ prop(
 prop(
     "C09",
     lean_modules=["BloomVerif.Lemmas.Pipeline", "BloomVerif.Props.C09", "BloomVerif.Props.C08Gen"],
-    technique="Lean 4 proof (size invariant of every pipeline stage ⇒ backlog ≤ IngestBufferSize + 4·MaxBufferedRows in every reachable state) + trace validation + measured backlog under stalled stores",
+    technique="Lean 4 proof (size invariant of every pipeline stage ⇒ backlog ≤ IngestBufferSize + 4·MaxBufferedRows in every reachable state), with IngestRows regenerated from ingest.go (nil returned iff the request was queued: Props/C08Gen) + trace validation + measured backlog under stalled stores",
     design_ref="DESIGN.md section 4 C09",
     text="Machine-checked: in every reachable state the accepted-but-unanswered batches number at most IngestBufferSize + 4*MaxBufferedRows, whatever the stores do; a full ingest channel disables acceptance. The measured maximum backlog of recorded runs with stalled stores and several producers is compared with the bound.",
     trusted_base=PIPE_TB, assumptions=PIPE_ASSUME + ["every non-empty batch carries at least one row, and the actor flushes as soon as MaxBufferedRows rows are buffered (tied by the C10 actor correspondence)"],
